@@ -16,6 +16,8 @@ SKIP=${SEED_MATRIX_SKIP:-/dev/null}
 for d in seeded/*/; do
   id=$(basename $d)
   grep -qx "$id" "$SKIP" 2>/dev/null && continue
-  VERIF_MAX_MINIMISE=1 python3 tools/try_seed.py $d/patch.diff $PROPS 2>/dev/null | tail -1 | sed "s|^{|{\"seed\":\"$id\",|" >> seeded/MATRIX.jsonl
+  # SEED_MATRIX_DIAGONAL=1: only the check of the property the change was written against
+  P="$PROPS"; [ -n "$SEED_MATRIX_DIAGONAL" ] && P=$(echo $id | cut -c1-3)
+  VERIF_MAX_MINIMISE=1 python3 tools/try_seed.py $d/patch.diff $P 2>/dev/null | tail -1 | sed "s|^{|{\"seed\":\"$id\",|" >> seeded/MATRIX.jsonl
   echo "$id done"
 done
